@@ -224,7 +224,7 @@ def run_case(spec, ctx):
         text = PREFIX_MODEL
     else:
         # int literals, Mod and conditionals with folded constants are C02/C01 subjects: keep expressions simple, shapes rich
-        prof = Profile(mod=False, int_literals=False, ccond=False, funcs=["exp", "sin", "cos", "atan", "abs", "sqrt"], pow=False)
+        prof = Profile(mod=False, int_literals=False, hard_lits=False, ccond=False, funcs=["exp", "sin", "cos", "atan", "abs", "sqrt"], pow=False)
         text = models.gen_model(rng, prof, depth=2, n_states=rng.choice([2, 3, 4, 5, 6, 8]), n_inter=rng.choice([2, 4, 6, 10]), n_comp=rng.choice([1, 2, 3])).render(rng)
     out["hash"] = models.structural_hash(text) + ":" + be
     ref = RefModel.from_text(text)
